@@ -22,8 +22,9 @@ type c06Expiry struct {
 }
 
 type c06Case struct {
-	World  hx.World  `json:"world"`
-	Expiry c06Expiry `json:"expiry"`
+	World    hx.World  `json:"world"`
+	Expiry   c06Expiry `json:"expiry"`
+	StepName string    `json:"step_name"` // name requested for the summary link (irrelevant for expiry)
 }
 
 // strictExpiry parses YYYY-MM-DDTHH:MM:SSZ by hand (no time.Parse) and returns Unix seconds.
@@ -86,7 +87,7 @@ func c06Gen(t *rapid.T) c06Case {
 	o := hx.DefaultWorldOpts()
 	o.MaxSteps = 2
 	o.MaxInspections = 2
-	c := c06Case{World: hx.GenWorld(t, o)}
+	c := c06Case{World: hx.GenWorld(t, o), StepName: rapid.SampledFrom([]string{"", "", "final", "step0"}).Draw(t, "stepname")}
 	switch rapid.IntRange(0, 9).Draw(t, "expirykind") {
 	case 0, 1:
 		c.Expiry = c06Expiry{Mode: "abs", Abs: hx.GenExpires().Draw(t, "abs")}
@@ -144,6 +145,7 @@ func c06Run(c c06Case, r *hx.Rec) error {
 	if err != nil {
 		return fmt.Errorf("harness: materialise: %v", err)
 	}
+	b.StepName = c.StepName
 	t0 := time.Now()
 	out := b.Verify()
 	t1 := time.Now()
